@@ -50,12 +50,14 @@ RealTwap(feed, key, now, interval) ==
                             latest.price * (now - latest.t), base, interval)
 
 (***************************************************************************)
-(* What the vAMM's querier obtains.  It deserialises both answers as a     *)
-(* plain Uint128: the mock answers with a number, the real feed answers    *)
-(* GetPrice with a PriceData record, which does not parse (finding F4).    *)
+(* What the vAMM's querier obtains: the latest submitted price and the     *)
+(* feed's TWAP.  The mock answers GetPrice with a bare number, the real    *)
+(* feed with the whole latest round; the vAMM takes the price from either  *)
+(* (before fix F4 it could not parse the latter, so no liquidation could   *)
+(* succeed on a deployment using the repository's own price feed).         *)
 (***************************************************************************)
 UnderlyingPrice(feed, key) ==
-  IF feed.kind = "mock" THEN feed.price ELSE FAIL
+  IF feed.kind = "mock" THEN feed.price ELSE Last(Rounds(feed, key)).price
 UnderlyingTwap(feed, key, now, interval) ==
   IF feed.kind = "mock" THEN feed.price ELSE RealTwap(feed, key, now, interval)
 =============================================================================
